@@ -14,8 +14,13 @@ own thread through Arbiter::current()), c10-rounds (one OS thread hosts 2-3 Syst
 is a run of its own in the trace), c09-twostop (stop, Arbiter::new, stop, all before run() is entered: the later stop
 must reach the arbiter created between the two), c09-pinned (hundreds of short Systems with every thread pinned to ONE
 CPU: Arbiter::new and System::stop at once by the same thread; makes the window between "ready" and "registered"
-observable) and c10-teardown (tasks that never complete are pending when their arbiter is stopped: their destructors
-run between the end of the loop and the exit of the thread and send from there)."""
+observable), c10-teardown (tasks that never complete are pending when their arbiter is stopped: their destructors
+run between the end of the loop and the exit of the thread and send from there), c10-flood (40-100 commands queued on
+ONE arbiter while its thread is blocked inside a task, or on the system arbiter before run() is entered; the arbiter is
+released and every command must start within the watchdog: C10_AcceptedStarts), c10-overlap (two Systems alive at once
+on one OS thread, the older one is stopped and run to completion first; then tasks on the younger System's arbiters
+look at Arbiter::current() / System::current()) and c09-backlog (a worker arbiter is blocked inside a task with ~1100
+commands queued behind it when the System stop is issued; it is released afterwards and its join must return)."""
 import concurrent.futures
 import itertools
 import json
@@ -46,13 +51,14 @@ NEGS_C09 = {"NEG_C09_SecondStopOverwritesCode.cfg": ["C09_FirstCodeWins"],
             "NEG_C09_live_CtrlBatchLosesWake.cfg": ["temporal"],
             "NEG_C09_RegisterAfterReady.cfg": ["C09_AllRegisteredStop"],
             "NEG_C09_LaterExitNoOp.cfg": ["C09_AllRegisteredStop"],
-            "NEG_C09_live_ExitSkipsLastArbiter.cfg": ["temporal"]}
+            "NEG_C09_live_ExitSkipsLastArbiter.cfg": ["temporal"],
+            "NEG_C09_BoundedQueueLosesStop.cfg": ["C09_AllRegisteredStop"]}
 
 
 # flavours whose scenarios reproduce a real watchdog expiry when they are run again (deterministic sequences, or
 # hundreds of repetitions of a race): such a rejection is reported only if a re-run of the scenario is rejected too
-CONFIRM_BY_RERUN = ("c09-twostop", "c09-pinned")
-TIMEOUT_EVS = ("JoinTimeout", "GoneTimeout", "RunTimeout")
+CONFIRM_BY_RERUN = ("c09-twostop", "c09-pinned", "c09-backlog", "c10-flood")
+TIMEOUT_EVS = ("JoinTimeout", "GoneTimeout", "RunTimeout", "AwaitTimeout")
 
 
 # --------------------------------------------------------------------------------------------
@@ -266,12 +272,70 @@ def gen_rounds_scenario(rng, sid):
     return {"id": sid, "seed": rng.getrandbits(48), "rounds": rounds, "flavour": "c10-rounds"}
 
 
+def _no_stop_on(sc, arbs):
+    """no command of the scripts stops one of `arbs` (stop / self_stop_then_spawn): their loops must go on"""
+    for script in sc["senders"] + [x["owner"] for x in sc["arbs"]]:
+        script[:] = [c for c in script if not (c["arb"] in arbs and c["op"] in ("stop", "self_stop_then_spawn"))]
+
+
+def gen_flood_scenario(rng, sid, k):
+    """C10: 40-100 commands (spawn_fn / spawn alternately) are queued on ONE arbiter that cannot take them at the moment:
+    a foreign thread blocks the arbiter's thread inside a task first (k % 3 = 0: a worker arbiter, 1: the system arbiter),
+    or the system thread queues them on the system arbiter before run() is entered (k % 3 = 2).  The arbiter is released;
+    the driver waits under the watchdog until the whole burst has started, only then the System stop may come.  The first
+    and the last few commands of the burst are recorded sends, the rest are sent without records of their own."""
+    shapes = tuple(rng.choice(["running", "running", "busy", "dropped"]) for _ in range(rng.randint(1, 2)))
+    sc = gen_scenario(rng, sid, (shapes, rng.choice(FROMS), "zero", 1), "c10")
+    when = "prerun" if k % 3 == 2 else "blocked"
+    a = 0 if k % 3 else rng.randint(1, len(shapes))
+    _no_stop_on(sc, (a,))
+    total, head, tail = rng.randint(40, 100), rng.randint(2, 6), rng.randint(4, 10)
+    sc["flood"] = {"arb": a, "when": when, "head": head, "fill": total - head - tail, "tail": tail, "hold": False}
+    sc["late"], sc["late_stop"] = False, None
+    sc["flavour"] = "c10-flood"
+    return sc
+
+
+def gen_overlap_scenario(rng, sid):
+    """C10: two Systems alive at once on ONE OS thread.  The hosting thread creates an older System, then the recorded
+    one and its arbiters; the older one is stopped and run to completion on that thread; then the recorded System runs
+    as usual.  A marker command per arbiter (system arbiter included) and every other command record what
+    Arbiter::current() / System::current() are inside them.  One or two such Systems per thread."""
+    rounds = []
+    for _ in range(rng.choice([1, 1, 2])):
+        shapes = tuple(rng.choice(["running", "running", "busy", "early", "dropped"]) for _ in range(rng.randint(0, 2)))
+        sc = gen_scenario(rng, sid, (shapes, rng.choice(FROMS), rng.choice(["zero", "pos", "neg"]), 1), "c10")
+        for script in sc["senders"] + [a["owner"] for a in sc["arbs"]]:
+            for c in script:
+                if c["op"] != "stop":
+                    c["echo"] = True
+        sc.update({"probe": True, "late": False, "late_stop": None, "flavour": "c10-overlap",
+                   "other_system": {"code": rng.choice([0, 0, 7, -7]), "api": rng.choice(["run", "run_with_code"])}})
+        rounds.append(sc)
+    return {"id": sid, "seed": rng.getrandbits(48), "rounds": rounds, "flavour": "c10-overlap"}
+
+
+def gen_arb_backlog_scenario(rng, sid, k):
+    """C09: worker arbiter 1 is busy - its thread is blocked inside a task (latch handshake) - with 1050-1200 cheap
+    commands queued behind that task when the System stop is issued (foreign thread, or a task on the system thread);
+    it is released once the stop calls have returned.  It was created before the stop: its join must return."""
+    shapes = ("running",) + tuple(rng.choice(["running", "busy", "dropped"]) for _ in range(rng.randint(0, 1)))
+    sc = gen_scenario(rng, sid, (shapes, ["foreign", "sys"][k % 2], rng.choice(["zero", "pos", "neg"]), 1), "c09")
+    _no_stop_on(sc, (0, 1))
+    sc["flood"] = {"arb": 1, "when": "blocked", "head": 2, "fill": rng.randint(1050, 1200), "tail": 2, "hold": True}
+    sc["late"], sc["late_stop"] = False, None
+    sc["flavour"] = "c09-backlog"
+    return sc
+
+
 def extras(count, flavour):
     """how many scenarios of the special flavours are added on top of the `count` enumerated ones"""
     if flavour == "c09":
         return {"pre": max(12, count * 18 // 100), "burst": max(9, count * 12 // 100),
-                "twostop": max(8, count * 4 // 100), "pinned": 2 if count <= 500 else 4}
-    return {"self": max(12, count * 12 // 100), "rounds": max(8, count * 10 // 100), "teardown": max(8, count * 4 // 100)}
+                "twostop": max(8, count * 4 // 100), "pinned": 2 if count <= 500 else 4,
+                "backlog": 2 if count <= 500 else 8}
+    return {"self": max(12, count * 12 // 100), "rounds": max(8, count * 10 // 100), "teardown": max(8, count * 4 // 100),
+            "flood": max(6, count * 2 // 100), "overlap": max(6, count * 2 // 100)}
 
 
 def gen_scenarios(rng, count, flavour):
@@ -289,9 +353,11 @@ def gen_scenarios(rng, count, flavour):
     if flavour == "c09":
         special += [("pre", k) for k in range(ex["pre"])] + [("burst", k) for k in range(ex["burst"])]
         special += [("twostop", k) for k in range(ex["twostop"])] + [("pinned", k) for k in range(ex["pinned"])]
+        special += [("backlog", k) for k in range(ex["backlog"])]
     else:
         special += [("self", k) for k in range(ex["self"])] + [("rounds", k) for k in range(ex["rounds"])]
         special += [("teardown", k) for k in range(ex["teardown"])]
+        special += [("flood", k) for k in range(ex["flood"])] + [("overlap", k) for k in range(ex["overlap"])]
     for which, k in special:
         sid = len(out)
         if which in ("pre", "burst"):
@@ -304,6 +370,12 @@ def gen_scenarios(rng, count, flavour):
             sc = gen_pinned_scenario(rng, sid, 100 if count <= 500 else 1500)
         elif which == "teardown":
             sc = gen_teardown_scenario(rng, sid, k)
+        elif which == "flood":
+            sc = gen_flood_scenario(rng, sid, k)
+        elif which == "overlap":
+            sc = gen_overlap_scenario(rng, sid)
+        elif which == "backlog":
+            sc = gen_arb_backlog_scenario(rng, sid, k)
         else:
             sc = gen_rounds_scenario(rng, sid)
         # spread them over the whole run list (the driver stops after a few runs with watchdog expiries)
@@ -508,6 +580,20 @@ TAMPERED = {
                   *[dict(r, tid=5) for r in _send(2, False)], {"ev": "JoinReturned", "arb": 1})),
         ("C10_JoinAfterLoopEnd", _t(*_send(1), *_STOP1, {"ev": "JoinReturned", "arb": 1}, _start(1))),
         ("C10_BlockOnOutput", _t({"ev": "BlockOn", "what": "x", "expected": 1, "got": 2})),
+        # a task on the system arbiter finds no current System (sysid -1) / another System's id
+        ("C10_OnOwnThread", _t(*_send(1, arb=0), dict(_start(1, tid=1, arb=0), sysid=-1))),
+        ("C10_OnOwnThread", _t({"ev": "OtherSystem", "sysid": 7, "tid": 1}, *_send(1, arb=0), dict(_start(1, tid=1, arb=0), sysid=7))),
+        # three commands are accepted by a live arbiter, the first starts, the driver's wait for the others expires
+        ("C10_AcceptedStarts", _t(*_send(1), *_send(2), {"ev": "Filler", "arb": 1, "n": 40, "accepted": 40}, *_send(3), _start(1),
+                                  {"ev": "AwaitStart", "arb": 1}, {"ev": "AwaitTimeout", "arb": 1})),
+        ("C10_AcceptedStarts", _t(*_send(1, arb=0), {"ev": "RunCall", "api": "run"}, {"ev": "AwaitStart", "arb": 0},
+                                  {"ev": "AwaitTimeout", "arb": 0})),
+        # the limits of that clause (must be ACCEPTED): all started in time; a stop of some kind was issued meanwhile (the
+        # loop may end first); a command accepted only after the wait began
+        (None, _t(*_send(1), *_send(2), {"ev": "AwaitStart", "arb": 1}, _start(1), _start(2), {"ev": "AwaitReturned", "arb": 1})),
+        (None, _t(*_send(1), *_send(2), {"ev": "AwaitStart", "arb": 1}, _start(1), *_STOP1, {"ev": "AwaitTimeout", "arb": 1})),
+        (None, _t(*_send(1), {"ev": "AwaitStart", "arb": 1}, *_sys(0), {"ev": "AwaitTimeout", "arb": 1})),
+        (None, _t(*_send(1), _start(1), {"ev": "AwaitStart", "arb": 1}, *_send(2), {"ev": "AwaitTimeout", "arb": 1})),
     ],
 }
 
@@ -575,7 +661,7 @@ def flow(ctx, *, flavour, tcfg, nt_rule, nontrivial):
     ctx.cov["rule"] = nt_rule
     ctx.cov["antecedent_counts"] = {k: sum(1 for s in summaries if s.get(k) is True) for k in
                                     ("order", "started", "afterStop", "afterGone", "mustStop", "twoStops", "early",
-                                     "selfSend", "echo", "negCode", "laterStop", "loopEndSeen")}
+                                     "selfSend", "echo", "negCode", "laterStop", "loopEndSeen", "awaited")}
     ctx.cov["max_arbiters_in_one_run"] = max([s.get("ncreated", 0) for s in summaries] or [0])
     ctx.cov["runs_with_10_or_more_arbiters"] = sum(1 for s in summaries if s.get("ncreated", 0) >= 10)
     executed = {r[0]["run"] for r in runs}
@@ -591,10 +677,18 @@ def flow(ctx, *, flavour, tcfg, nt_rule, nontrivial):
         vlib.log("WARNING: sched_setaffinity failed, the 'pinned' rounds ran unpinned (the ready/registered race is "
                  "then much less likely to be exercised)")
     # the clauses added for later stop calls / the observed end of a loop must have been exercised by the driver
+    fillers = [rec for r in runs for rec in r if rec.get("ev") == "Filler"]
+    ctx.cov["largest_backlog_queued_on_one_arbiter"] = max([f["n"] for f in fillers] or [0])
+    ctx.cov["systems_run_after_an_older_system_of_their_thread_exited"] = sum(
+        1 for r in runs if any(rec.get("ev") == "OtherSystem" for rec in r))
     if not rejects and not summ.get("aborted"):
-        need = {"c09": "laterStop", "c10": "loopEndSeen"}[flavour]
-        if ctx.cov["antecedent_counts"][need] == 0:
-            raise vlib.ToolError("no recorded run exercised the antecedent '%s' (driver / scenario generator drifted)" % need)
+        for need in {"c09": ["laterStop"], "c10": ["loopEndSeen", "awaited"]}[flavour]:
+            if ctx.cov["antecedent_counts"][need] == 0:
+                raise vlib.ToolError("no recorded run exercised the antecedent '%s' (driver / scenario generator drifted)" % need)
+        if flavour == "c09" and ctx.cov["largest_backlog_queued_on_one_arbiter"] < 1000:
+            raise vlib.ToolError("no recorded run queued a backlog of >= 1000 commands on a blocked arbiter")
+        if flavour == "c10" and ctx.cov["systems_run_after_an_older_system_of_their_thread_exited"] == 0:
+            raise vlib.ToolError("no recorded run hosted a System next to an older one on the same thread")
     ctx.cov["drift"] = {"send_false_before_any_stop": sum(1 for s in summaries if s.get("driftFalse")),
                         "explicit_stop_join_timeout": sum(1 for s in summaries if s.get("driftEarly"))}
     def shape_key(s):
@@ -614,8 +708,11 @@ def flow(ctx, *, flavour, tcfg, nt_rule, nontrivial):
     ctx.assumptions += [
         "sequence numbers are taken under one mutex: 'x ended before y started' is real-time precedence; "
         "nothing else about the order of concurrent calls is used",
-        "watchdog 10 s: a join/run that has not returned by then is recorded as a timeout; in the flavours "
-        "c09-twostop / c09-pinned such a rejection is reported only if a re-run of the scenario is rejected again",
+        "watchdog 10 s: a join/run (or the wait for a burst of queued commands to start) that has not returned by then "
+        "is recorded as a timeout; in the flavours c09-twostop / c09-pinned / c09-backlog / c10-flood such a rejection is "
+        "reported only if a re-run of the scenario is rejected again",
+        "an accepted command counts as stranded only if no stop of any kind was issued on its arbiter (and the System) "
+        "until the watchdog period of the driver's wait had passed",
         "a later System stop call binds (arbiters created before it must stop) only when it returned before run() was "
         "entered and the runner was not polled since the first stop call started; fewer than 128 controller messages "
         "are buffered then (tokio's cooperative budget ends a poll of the controller after 128 messages)",
@@ -664,6 +761,8 @@ def run(ctx):
                             "system thread before run() (stop also from the system thread before run()), and bursts of "
                             "8-16 arbiters created/stopped by a foreign thread while the system thread is blocked in a task; "
                             "two or three stop calls with arbiters created between them before run() is entered; "
+                            "2 (thorough 8) runs with a worker arbiter blocked in a task and 1050-1200 commands queued on "
+                            "it when the stop is issued; "
                             "2 x 100 (thorough 4 x 1500) short Systems pinned to one CPU: Arbiter::new and stop at once"}
     flow(ctx, flavour="c09", tcfg="Trace_C09.cfg",
          nt_rule="a run is non-trivial when a System stop was issued while at least one worker arbiter created before "
